@@ -245,6 +245,12 @@ func runCase(w *lib.Writer, in input, g *Generated, lays []Layout) {
 				fail(fmt.Sprintf("scenario %d: fault expected=%v, message %q", k, faultScen[k], msg))
 			}
 		}
+		// getinfo(f,'S') of the function object must agree with getinfo(level,'S'); no current line
+		for k, bf := range res.ByFunc {
+			if fi, ok := res.Info[k]; ok && fi.What != "G" && (bf[0] != fi.LineDefined || bf[1] != fi.LastLine || bf[2] != -1) {
+				fail(fmt.Sprintf("getinfo(func,'Sl') = %v disagrees with getinfo(level) %+v", bf, fi))
+			}
+		}
 		var lines []int
 		for _, l := range g.Lines {
 			v := -1
